@@ -297,6 +297,7 @@ int main(int argc, char** argv)
             if (line.empty() || line[0] == '#') continue;
             size_t bar = line.find(" | ");
             if (bar == std::string::npos) continue;
+            if (line.find("@outpoint") != std::string::npos) { printf("replay (multi-input case, re-run the tier to re-evaluate): %s\n", line.c_str()); continue; }
             auto p = parse_desc(line.substr(0, bar));
             if (!p) { printf("replay: descriptor does not parse\n"); return 2; }
             RunState st;
